@@ -41,9 +41,9 @@ M = [
     ('c_lui_allows_x2', A, "C_LUI      = partial(ciu_type, opcode=0b01, funct3=0b011, cs=[RegRdRs1NotZero, RegRdRs1NotTwo, ImmNotZero])", "C_LUI      = partial(ciu_type, opcode=0b01, funct3=0b011, cs=[RegRdRs1NotZero, ImmNotZero])", ['C06', 'C02'], ''),
     ('relocate_hi_no_carry_high', A, "    if imm & 0x800:\n        imm += 2**12", "    if imm & 0x800 and not (imm & 0x40000000):\n        imm += 2**12", ['C07', 'C05'], 'carry dropped for one upper-bit class'),
     ('relocate_lo_unsigned_0x800', A, "def relocate_lo(imm):\n    return sign_extend(imm & 0x00000fff, 12)", "def relocate_lo(imm):\n    v = sign_extend(imm & 0x00000fff, 12)\n    return v if (imm & 0xfff) != 0x800 or imm < 0x10000 else v + 0\n", [], 'no-op control (must NOT be caught)'),
-    ('li_threshold_inclusive', A, "            if static and value >= (-2**11) and value <= (2**11 - 1):\n                inst = ITypeInstruction(item.line, 'addi', rd=rd, rs1='x0', imm=Lo(imm))", "            if static and value >= (-2**11) and value <= (2**11):\n                inst = ITypeInstruction(item.line, 'addi', rd=rd, rs1='x0', imm=Lo(imm))", ['C05'], 'li 2048 becomes addi -2048'),
-    ('li_shrink_dropped', A, "                inst = ITypeInstruction(item.line, 'addi', rd=rd, rs1='x0', imm=Lo(imm))\n                # shrink all subsequent labels by 4\n                new_labels = {k: v - 4 for k, v in labels.items() if v > position}\n                labels.update(new_labels)",
-     "                inst = ITypeInstruction(item.line, 'addi', rd=rd, rs1='x0', imm=Lo(imm))", ['C03', 'C08'], 'labels after a short li are 4 too high'),
+    ('li_threshold_inclusive', A, "                if static and value >= (-2**11) and value <= (2**11 - 1):\n                    inst = ITypeInstruction(item.line, 'addi', rd=rd, rs1='x0', imm=Lo(imm))", "                if static and value >= (-2**11) and value <= (2**11):\n                    inst = ITypeInstruction(item.line, 'addi', rd=rd, rs1='x0', imm=Lo(imm))", ['C05'], 'li 2048 becomes addi -2048'),
+    ('li_shrink_dropped', A, "                    inst = ITypeInstruction(item.line, 'addi', rd=rd, rs1='x0', imm=Lo(imm))\n                    # shrink all subsequent labels by 4\n                    new_labels = {k: v - 4 for k, v in labels.items() if v > position}\n                    labels.update(new_labels)",
+     "                    inst = ITypeInstruction(item.line, 'addi', rd=rd, rs1='x0', imm=Lo(imm))", ['C03', 'C08'], 'labels after a short li are 4 too high'),
     ('compress_shrink_ge', A, "            new_labels = {k: v - 2 for k, v in labels.items() if v > position}", "            new_labels = {k: v - 2 for k, v in labels.items() if v >= position}", ['C03', 'C04'], 'label right before a compressed instruction moves'),
     ('compress_shrink_by_4', A, "            new_labels = {k: v - 2 for k, v in labels.items() if v > position}", "            new_labels = {k: v - (2 if position % 64 else 4) for k, v in labels.items() if v > position}", ['C03', 'C04'], ''),
     ('align_resolution_residue0', A, "        padding = self.alignment - (position % self.alignment)\n        if padding == self.alignment:\n            return 0", "        padding = self.alignment - (position % self.alignment)\n        if padding == self.alignment and self.alignment != 8:\n            return 0", ['C09'], 'align 8 at residue 0 pads 8'),
@@ -53,10 +53,10 @@ M = [
     ('c_mv_alt_no_imm0', A, "            RegNotEquals('rs1', 0),\n            ImmIsStatic(),\n            ImmEquals(0),\n        ],\n        'c.ebreak'", "            RegNotEquals('rs1', 0),\n            ImmIsStatic(),\n            ImmBetween(0, 1),\n        ],\n        'c.ebreak'", ['C04'], 'addi rd, rs, 1 becomes c.mv'),
     ('c_andi_range_narrow', A, "            NameEquals('andi'),\n            RegBetween('rd', 8, 15),\n            RegBetween('rs1', 8, 15),\n            RegsMatch('rd', 'rs1'),\n            ImmIsStatic(),\n            ImmBetween(-2**5, 2**5 - 1),", "            NameEquals('andi'),\n            RegBetween('rd', 8, 15),\n            RegBetween('rs1', 8, 15),\n            RegsMatch('rd', 'rs1'),\n            ImmIsStatic(),\n            ImmBetween(-2**5, 2**5 - 2),", ['C20'], 'andi x8, x8, 31 no longer compressed'),
     ('c_sub_missing_regclass', A, "            NameEquals('sub'),\n            RegBetween('rd', 8, 15),", "            NameEquals('sub'),\n            RegBetween('rd', 8, 14),", ['C20'], ''),
-    ('second_round_dropped', A, "    items = resolve_register_aliases(items, constants)\n    if compress:\n        items = transform_compressible(items, constants, labels)\n    items = resolve_aligns(items, labels)", "    items = resolve_register_aliases(items, constants)\n    items = resolve_aligns(items, labels)", ['C20'], 'instructions that come out of pseudo-instruction expansions are never compressed'),
+    ('second_round_dropped', A, "        items = resolve_register_aliases(items, constants)\n        if compress:\n            items = transform_compressible(items, absolutes, labels)\n        items = resolve_aligns(items, labels)", "        items = resolve_register_aliases(items, constants)\n        items = resolve_aligns(items, labels)", ['C20'], 'instructions that come out of pseudo-instruction expansions are never compressed'),
     ('neg_operand_order', A, "            inst = RTypeInstruction(item.line, 'sub', rd=rd, rs1='x0', rs2=rs)", "            inst = RTypeInstruction(item.line, 'sub', rd=rd, rs1=rs, rs2='x0') if rd == rs else RTypeInstruction(item.line, 'sub', rd=rd, rs1='x0', rs2=rs)", ['C05'], 'wrong only when rd == rs'),
     ('bgt_unswapped_numeric', A, "            inst = BTypeInstruction(item.line, names[item.name], rs1=rt, rs2=rs, imm=imm)", "            inst = BTypeInstruction(item.line, names[item.name], rs1=rt, rs2=rs, imm=imm) if not rs.isdigit() else BTypeInstruction(item.line, names[item.name], rs1=rs, rs2=rt, imm=imm)", ['C05', 'C13'], 'operands unswapped only when registers are spelled numerically'),
-    ('position_uses_pessimistic', A, "    items = resolve_aligns(items, labels)\n    items = resolve_immediates(items, constants, labels)", "    items = resolve_immediates(items, constants, labels)\n    items = resolve_aligns(items, labels)", ['C08', 'C03'], 'immediates baked before aligns are resolved'),
+    ('position_uses_pessimistic', A, "        items = resolve_aligns(items, labels)\n        items = resolve_immediates(items, absolutes, labels)", "        items = resolve_immediates(items, absolutes, labels)\n        items = resolve_aligns(items, labels)", ['C08', 'C03'], 'immediates baked before aligns are resolved'),
     ('offset_eval_stale', A, "        dest = env[self.reference]\n        return dest - position", "        dest = env[self.reference]\n        return dest - position + (2 if position % 4 == 2 and dest < position else 0)", ['C03'], 'backward offsets wrong from a 2-mod-4 position'),
     ('longs_8_bytes', A, "            'longs': 4,\n            'longlongs': 8,\n        }\n        return sizes[self.name] * len(self.values)", "            'longs': 8,\n            'longlongs': 8,\n        }\n        return sizes[self.name] * len(self.values)", ['C03', 'C09'], 'size() of longs says 8: labels after it are wrong'),
     ('dh_signedness', A, "        fmt = endianness + formats[item.name]\n        if item.imm < 0:\n            fmt = fmt.lower()\n\n        pack = Pack(item.line, fmt, item.imm)", "        fmt = endianness + formats[item.name]\n        if item.imm < 0 or (item.name == 'dh' and item.imm < 0x8000):\n            fmt = fmt.lower()\n\n        pack = Pack(item.line, fmt, item.imm)", [], 'same bytes: control (must NOT be caught)'),
@@ -72,7 +72,7 @@ M = [
     ('cli_replace_before_all_staged', A, "        staged.append((args.output + '.part', args.output))\n        with open(args.output + '.part', 'wb') as out_bin:\n            out_bin.write(binary)\n", "        with open(args.output, 'wb') as out_bin:\n            out_bin.write(binary)\n        staged.append((args.output, args.output))\n", ['C17'], 'binary written in place before the hex file is known to be writable'),
     ('cli_labels_decimal', A, "            lines = ['{} 0x{:08x}\\n'.format(k, v) for k, v in labels.items()]", "            lines = ['{} 0x{:08x}\\n'.format(k, v if v < 4096 else v & ~1) for k, v in labels.items()]", [], 'no-op for even labels: control'),
     ('error_line_off_by_include', A, "        line = Line(path, i, raw_line)", "        line = Line(path, i if not include else i + 1, raw_line)", ['C15'], 'line numbers of included files off by one'),
-    ('error_loses_line_in_li', A, "            value = imm.eval(position, env, item.line)\n            value = c_int32(value).value  # signed imm\n            # labels and positions are still moving", "            value = imm.eval(position, env, Line(item.line.file, 1, item.line.contents))\n            value = c_int32(value).value  # signed imm\n            # labels and positions are still moving", ['C15'], 'undefined li operand reported at line 1'),
+    ('error_loses_line_in_li', A, "                value = imm.eval(position, env, item.line)\n                value = c_int32(value).value  # signed imm\n                # labels and positions are still moving", "                value = imm.eval(position, env, Line(item.line.file, 1, item.line.contents))\n                value = c_int32(value).value  # signed imm\n                # labels and positions are still moving", ['C15'], 'undefined li operand reported at line 1'),
     ('comment_strip_after_paren', A, "    contents = re.sub(r'#.*$', r'', contents)\n\n    # pad parens before split\n    contents = contents.replace('(', ' ( ').replace(')', ' ) ')", "    # pad parens before split\n    contents = contents.replace('(', ' ( ').replace(')', ' ) ')\n    contents = re.sub(r' #.*$', r'', contents)", ['C13'], 'comment glued to a token survives'),
     ('hex_register_breaks_alias', A, "    try:\n        reg = int(reg, base=0)\n    except:\n        pass", "    try:\n        reg = int(reg, base=0) if not str(reg).startswith('0b') else reg\n    except:\n        pass", [], 'binary register numbers are not a documented spelling: control'),
     ('const_precedence_paren_strip', A, "        return Arithmetic(' '.join(imm))\n\n\ndef parse_item", "        return Arithmetic(' '.join(imm) if imm.count('(') != 2 else ' '.join(t for t in imm if t not in '()'))\n\n\ndef parse_item", ['C11'], 'parentheses dropped from expressions with two groups'),
@@ -86,7 +86,7 @@ M = [
     ('string_utf16', A, "        blob = Blob(item.line, item.value.encode('utf-8'))", "        blob = Blob(item.line, item.value.encode('utf-8') if item.value.isascii() else item.value.encode('utf-8')[:-1] + b'?')", ['C10', 'C03'], 'last byte of non-ASCII strings replaced'),
     ('include_bytes_truncate', A, "        with open(item.path, 'rb') as f:\n            data = f.read()\n\n        # defense against the dark race conditions\n        assert len(data) == item.fsize", "        with open(item.path, 'rb') as f:\n            data = f.read()\n        if len(data) > 4096:\n            data = data[:4096] + bytes(len(data) - 4096)\n\n        # defense against the dark race conditions\n        assert len(data) == item.fsize", ['C10'], 'big blobs zeroed after 4 KiB'),
     ('compress_fails_on_alias_shift', A, "Arithmetic(str(lookup_register(item.rs2)))", "Arithmetic(item.rs2)", ['C12'], '[all] re-introduces F4'),
-    ('far_call_threshold', A, "            if value >= (-2**20) and max(value, worst) <= (2**20 - 1):\n                inst = JTypeInstruction(item.line, 'jal', rd='x1', imm=imm)", "            if value >= (-2**20) and max(value, worst) <= (2**20 + 1):\n                inst = JTypeInstruction(item.line, 'jal', rd='x1', imm=imm)", ['C05'], 'call to an absolute target at exactly +1 MiB takes the near form and is refused in both modes (label targets never show it: the pessimistic forward distance is 4 larger)'),
+    ('far_call_threshold', A, "                if value >= (-2**20) and max(value, worst) <= (2**20 - 1):\n                    inst = JTypeInstruction(item.line, 'jal', rd='x1', imm=imm)", "                if value >= (-2**20) and max(value, worst) <= (2**20 + 1):\n                    inst = JTypeInstruction(item.line, 'jal', rd='x1', imm=imm)", ['C05'], 'call to an absolute target at exactly +1 MiB takes the near form and is refused in both modes (label targets never show it: the pessimistic forward distance is 4 larger)'),
     ('tail_uses_x1', A, "                inst = UTypeInstruction(item.line, 'auipc', rd='x6', imm=Hi(imm))", "                inst = UTypeInstruction(item.line, 'auipc', rd='x7', imm=Hi(imm))", ['C05'], 'far tail clobbers x7 / jumps through wrong reg'),
 ]
 
